@@ -5,7 +5,7 @@ CONSTANTS MaxDepth = 2
           ArgPaths <- MCArgPaths
           MvDsts <- MCMvDsts
           DataSet <- MCDataSet
-          Offs = {1}
+          Offs = {0, 1}
           Sizes = {0, 1}
           Modes = {1}
           Times = {1}
